@@ -167,3 +167,33 @@ pub fn gen_indexer(r: &mut Rng) -> String {
     }
     format!("nl={} lines={}", r.below(2), items.join(","))
 }
+
+/// C19: the tool given BED on stdin and no schema.  args: cols=<number of columns, >=3>
+/// (spawns this binary again as `stdin_autosql child <sizes> <out>` with the BED text on its stdin)
+pub fn run_stdin_autosql(a: &Args) -> Result<(), String> {
+    use std::process::{Command, Stdio};
+    let cols: usize = a.get("cols").map(|s| s.parse().unwrap()).unwrap_or(6);
+    let dir = tempfile::tempdir().map_err(|e| e.to_string())?;
+    let sizes = dir.path().join("chrom.sizes");
+    std::fs::write(&sizes, "chr1\t1000\n").unwrap();
+    let out = dir.path().join("out.bb");
+    let mut text = String::new();
+    for i in 0..3 { let mut l = format!("chr1\t{}\t{}", i * 10, i * 10 + 5); for c in 3..cols { l.push_str(&format!("\tx{}", c)); } l.push('\n'); text.push_str(&l); }
+    let mut child = Command::new(std::env::current_exe().unwrap()).args(["stdin_autosql", "child", sizes.to_str().unwrap(), out.to_str().unwrap()])
+        .stdin(Stdio::piped()).stdout(Stdio::null()).stderr(Stdio::null()).spawn().map_err(|e| e.to_string())?;
+    child.stdin.take().unwrap().write_all(text.as_bytes()).unwrap();
+    let st = child.wait().map_err(|e| e.to_string())?;
+    if !st.success() { return Err("bedtobigbed on stdin failed".into()); }
+    let r = bigtools::BigBedRead::open_file(&out).map_err(|e| format!("open: {}", e))?;
+    let fc = r.info().header.field_count as usize;
+    if fc != cols { return Err(format!("rows have {} columns but the stored schema/header declares {} fields", cols, fc)); }
+    Ok(())
+}
+pub fn stdin_autosql_child(sizes: &str, out: &str) {
+    use bigtools::utils::cli::bedtobigbed::{bedtobigbed, BedToBigBedArgs};
+    use bigtools::utils::cli::BBIWriteArgs;
+    let args = BedToBigBedArgs { bed: "-".to_string(), chromsizes: sizes.to_string(), output: out.to_string(), parallel: "no".to_string(), single_pass: true, autosql: None,
+        write_args: BBIWriteArgs { nthreads: 1, nzooms: 2, zooms: None, uncompressed: true, sorted: "all".to_string(), block_size: 4, items_per_slot: 4, inmemory: true } };
+    if bedtobigbed(args).is_err() { std::process::exit(3); }
+}
+pub fn gen_stdin_autosql(r: &mut Rng) -> String { format!("cols={}", r.range(3, 9)) }
